@@ -128,6 +128,18 @@ impl ModelCheck {
         };
         out.count(if kind == "N" { "ring_N_runs" } else { "ring_H_runs" }, 1);
         let claims = self.claims;
+        let mut viols = viols;
+        if self.id == "C01" {
+            // C01's first sentence covers every acknowledged store command: a retrieval that
+            // returns other bytes or flags than the last acknowledged mutation produced is
+            // C01's business whatever that mutation was (C06 / C07 report it as well, as a
+            // wrong concatenation / counter text)
+            for v in viols.iter_mut() {
+                if (v.prop == "C06" || v.prop == "C07") && (v.clause == "retrieved-value-differs" || v.clause == "retrieved-flags-differ") {
+                    v.prop = "C01";
+                }
+            }
+        }
         // debugging / defect confirmation: claim exactly one signature, whichever property it belongs to
         match std::env::var("VERIF_CLAIM_SIG") {
             Ok(sig) => out.absorb(viols, &|v| v.signature() == sig),
